@@ -5,9 +5,27 @@ ROOT = os.path.dirname(os.path.abspath(__file__))
 
 # id: (category, technique, level text, level note, design ref)
 CHECKS = {
+ "C01": ("exploration", "reference-model runtime monitor (independent interpreter) + metamorphic rendering check",
+   "4k (quick) / 60k (thorough) programs from the harness's typed grammar, each rendered fully and minimally parenthesised, compiled by the real compiler and executed line by line (16/24 lines) next to an independent reference interpreter of docs/Language.md; store, runtime-error bit and settime-timestamps compared after every line; plus the documented forms of Language.md and pinned witnesses of the known findings.",
+   "Held on the executions produced. Trusted: Go regexp/strconv/math, the reference interpreter (written from the docs), the generator's restriction list (constructs the reference does not define are not generated or the case is abandoned and counted).", "§4 C01, App. A"),
+ "C02": ("translation_validation", "differential execution: optimised vs unoptimised compile of the same source",
+   "Exhaustive grid of 4704 single-operator constant expressions (6 ops x Int/Float operand kinds x 14x14 boundary literals) plus 1.5k/40k random programs with nested constant trees in every expression position, each compiled with and without the optimiser by the real compiler and run on the same lines; per-line stores and error bits compared; optimiser-only rejections must have a constant-zero divisor per the harness's own evaluator.",
+   "Both sides are the real compiler+VM; trusted: the harness's 40-line constant evaluator for the zero-divisor judgement.", "§4 C02"),
  "C08": ("exploration", "runtime reference-model monitor (injective-key map, datum identity)",
    "All tuples of arity 1-2 over components of length<=3 from {'-','\\\\','a'} are created in one real Metric and datum identity is checked to be a bijection (covers every ordered pair of that universe); every pair colliding under a naive encoding, plus 20k/400k random adversarial pairs of arity 1-4, go through a create/set/find/expire/emit/remove/re-create sequence against a reference map.",
    "Held on the tuples/pairs executed; trusted: Go maps, pointer equality, the harness's injective encoding.", "§4 C08"),
+ "C09": ("exploration", "executable sequential reference model compared after every operation",
+   "All operation sequences of length 4 (quick) / 5 (thorough) over {get,update,remove,expire} x 2 tuples + wrong-arity ops for three metric shapes, plus 6k/400k random sequences (<=30 ops) over every kind x type x arity 0-2; after every op the LabelValues slice, the index, EmitLabelSets and JSON are compared with an insertion-ordered reference list.",
+   "Single-threaded; creation timestamp learnt from the real side; JSON of non-finite floats left to C22.", "§4 C09"),
+ "C10": ("exploration", "reference GC predicate over (before, after) snapshots of real Store.Gc()",
+   "6k/300k random stores (limits, expiry marks, tied timestamps) built through the real API; one real Gc() bracketed by the harness clock; survivors must be an unchanged subsequence, limit victims an oldest-prefix (ties by inequality), expired data gone and everything else kept; second pass must be a no-op; index agrees with slice.",
+   "Data ages are >=0.5h away from every expiry threshold so the verdict is independent of when Gc sampled time.Now(); 'at most N' read literally.", "§4 C10"),
+ "C15": ("exploration", "reference splitter vs real LineReader, exhaustive over short streams/chunkings",
+   "Every byte string of length <=5 (quick) / <=7 (thorough) over {LF,CR,'a',0xC3,0xA9} x every chunking x buffer sizes {1,2,3,5,8,64} x 3 reader behaviours (1.0M / 90M runs), plus long random streams (lines longer than the 128KiB buffer, chunk sizes around 131072) through the default buffer.",
+   "Reader driven as the streams drive it (ReadAndSend until (0,EOF), then Finish).", "§4 C15"),
+ "C21": ("exploration", "reference bucketing vs real datum, compiled histogram and exports",
+   "3k/200k (declaration, observation sequence) cases with observations at/just below/just above every bound, negatives, ±0, ±Inf, NaN, through datum.Observe and through compiled programs fed log lines; bucket counts, count, bit-exact sum, and the Prometheus/JSON exported upper bounds and cumulative counts compared.",
+   "Known finding C21-b (first bound <= 0 not exported) classified by exact shape; float sum compared in observation order.", "§4 C21"),
 }
 NOT_APPLICABLE = {}
 
